@@ -216,8 +216,15 @@ pub enum BuildErr {
 }
 
 pub fn build(tape: &[u16], profile: &Profile) -> Result<Built, (String, BuildErr)> {
-    let prog = gen_program(tape, profile);
-    let src = prog.to_ink();
+    let (prog, src) = if profile.idioms && tape.first().map(|v| v % 4 == 3).unwrap_or(false) {
+        let mut t = Tape::new(&tape[1..]);
+        let (src, _) = crate::idioms::gen_idiom_program(&mut t);
+        (Program::default(), src)
+    } else {
+        let prog = gen_program(tape, profile);
+        let src = prog.to_ink();
+        (prog, src)
+    };
     match guard(|| compile(&src)) {
         Err(p) => Err((src, BuildErr::CompilerPanic(p))),
         Ok(Err(e)) => Err((src, BuildErr::CompileError(e))),
